@@ -293,7 +293,7 @@ def raises(fn):
 def error_cases(draw):
     U = draw(gen.universes(min_dims=2, max_dims=3, max_len=3, kinds=("str", "ustr")))
     x = draw(gen.arrays(U, modes=("coded",), min_dims=2))
-    kind = draw(st.sampled_from(["unknown-item", "unknown-in-dict", "ambiguous", "slice", "not-subset", "unknown-dim", "unknown-in-list"]))
+    kind = draw(st.sampled_from(["unknown-item", "unknown-in-dict", "ambiguous", "slice", "not-subset", "unknown-dim", "unknown-in-list", "read-with-list", "read-with-tuple-list"]))
     return {"universe": U, "x": x, "kind": kind, "pos": draw(st.integers(0, 3)), "write": draw(st.booleans())}
 
 
@@ -324,9 +324,20 @@ def run_error(desc):
         key = slice(0, 1)
     elif kind == "unknown-dim":
         key = {"z": it0[0]}
+    elif kind == "read-with-list":
+        key = {l0: list(it0[:2]) if len(it0) > 1 else [it0[0], it0[0]]}
+    elif kind == "read-with-tuple-list":
+        if len(it0) < 2:
+            key = {l0: [it0[0], it0[0]]}
+        else:
+            key = (it0[0], it0[1])
     else:
         key = {l0: fd.Dimension(letter=SUBLETTER[l0], name="Sub", items=[it0[0], "no-such-item"])}
-    if desc["write"] or kind == "unknown-in-list":
+    if kind.startswith("read-with"):
+        # several items of one dimension given as a list can be written to but not read (documented)
+        def fn():
+            return x[key]
+    elif desc["write"] or kind == "unknown-in-list":
         def fn():
             x[key] = 1.0
     else:
